@@ -394,7 +394,7 @@ impl Property for C05 {
         vec![("join", 1)]
     }
     fn budget(&self) -> (u64, u64) {
-        (3_000, 100_000)
+        (4_000, 150_000)
     }
     fn rule(&self) -> &'static str {
         "a primary with a history of 1-10 operations of {set (values: single word, multi-word, numeric, numeric first word, empty, UTF-8), remove, increment, create-db (3 strategies), snapshot} over 1-3 databases, split into before-departure / while-away / during-sync parts (the during-sync writes are either spread over the first second of the join or issued at the very instant the primary can read the joiner's replicate-since request, so that they interleave with the catch-up computation; one history in twelve adds 90-260 keys while the node is away, a catch-up longer than the link's 100-message channel); the second node has never been up (empty disk), was killed, or was shut down by SIGINT (with or without a snapshot on its disk), then (re)joins through the real join / election / replicate-since protocol while a writer keeps writing on the primary; at quiescence the joined node's dump must equal the primary's for every database (token, strategy, every key's value, version, removed keys absent). Runs where the join itself does not settle are discarded unless a node panicked. Non-trivial: the join settled and at least one key was compared. distinct = distinct (program, task-switch sequence)."
